@@ -349,10 +349,10 @@ func (w *World) Dial(port int, passive bool) *Conn {
 	a, b := &pipe{}, &pipe{}
 	sip := l.addr.IP
 	if sip == nil {
-		sip = net.IPv4(127, 0, 0, 1)
+		sip = loopback()
 	}
 	sa := &net.TCPAddr{IP: sip, Port: port}
-	ca := &net.TCPAddr{IP: net.IPv4(127, 0, 0, 1), Port: 40000 + id}
+	ca := &net.TCPAddr{IP: loopback(), Port: 40000 + id}
 	cl := &Conn{w: w, ID: id, in: a, out: b, name: "c" + itoa(id) + ".c", Passive: passive, la: ca, ra: sa}
 	sv := &Conn{w: w, ID: id, Server: true, in: b, out: a, name: "c" + itoa(id) + ".s", la: sa, ra: ca}
 	cl.Peer, sv.Peer = sv, cl
@@ -371,6 +371,16 @@ func (w *World) Dial(port int, passive bool) *Conn {
 	w.mu.Unlock()
 	raceEnable()
 	return cl
+}
+
+// loopback builds 127.0.0.1 without going through instrumented library code
+// (the address is read later by goroutines of the system under test).
+//
+//go:norace
+func loopback() net.IP {
+	ip := make(net.IP, 4)
+	ip[0], ip[3] = 127, 1
+	return ip
 }
 
 // ---- waiters ----------------------------------------------------------------
